@@ -23,9 +23,47 @@ fn r_unit(r: RvResult<()>) -> String {
     }
 }
 
+// an assert_vfs_* macro under catch_unwind: "pass" or "panic:<macro named in the message>"
+fn run_macro<V: VirtualFileSystem>(vfs: &V, f: &[&str]) -> String {
+    let a = |i: usize| -> String { unhex_s(f.get(i).copied().unwrap_or("")) };
+    let mode: u32 = f.get(4).and_then(|x| x.parse().ok()).unwrap_or(0);
+    let (p, q) = (a(2), a(3));
+    let r = std::panic::catch_unwind(std::panic::AssertUnwindSafe(|| match f[1] {
+        "exists" => { assert_vfs_exists!(vfs, &p); },
+        "no_exists" => { assert_vfs_no_exists!(vfs, &p); },
+        "is_dir" => { assert_vfs_is_dir!(vfs, &p); },
+        "no_dir" => { assert_vfs_no_dir!(vfs, &p); },
+        "is_file" => { assert_vfs_is_file!(vfs, &p); },
+        "no_file" => { assert_vfs_no_file!(vfs, &p); },
+        "is_symlink" => { assert_vfs_is_symlink!(vfs, &p); },
+        "no_symlink" => { assert_vfs_no_symlink!(vfs, &p); },
+        "read_all" => { assert_vfs_read_all!(vfs, &p, q.clone()); },
+        "readlink" => { assert_vfs_readlink!(vfs, &p, std::path::PathBuf::from(&q)); },
+        "readlink_abs" => { assert_vfs_readlink_abs!(vfs, &p, &q); },
+        "mkdir_p" => { assert_vfs_mkdir_p!(vfs, &p); },
+        "mkdir_m" => { assert_vfs_mkdir_m!(vfs, &p, mode); },
+        "mkfile" => { assert_vfs_mkfile!(vfs, &p); },
+        "write_all" => { assert_vfs_write_all!(vfs, &p, q.as_bytes()); },
+        "symlink" => { assert_vfs_symlink!(vfs, &p, &q); },
+        "remove" => { assert_vfs_remove!(vfs, &p); },
+        "remove_all" => { assert_vfs_remove_all!(vfs, &p); },
+        _ => panic!("unknown macro"),
+    }));
+    match r {
+        Ok(_) => "pass".to_string(),
+        Err(e) => {
+            let msg = if let Some(s) = e.downcast_ref::<String>() { s.clone() } else if let Some(s) = e.downcast_ref::<&str>() { s.to_string() } else { "?".to_string() };
+            let msg = msg.trim_start();
+            let name = msg.split(':').next().unwrap_or("?").to_string();
+            format!("panic:{}", name)
+        },
+    }
+}
+
 pub fn apply<V: VirtualFileSystem>(vfs: &V, f: &[&str]) -> Option<String> {
     let a = |i: usize| -> String { unhex_s(f.get(i).copied().unwrap_or("")) };
     Some(match f[0] {
+        "macro" => run_macro(vfs, f),
         "entries" => {
             let mut e = match vfs.entries(a(1)) {
                 Ok(e) => e,
